@@ -6,6 +6,7 @@ package main
 // specification needs for uninterpreted symbols.
 
 import (
+	"github.com/tobgu/qframe/config/csv"
 	"bufio"
 	"bytes"
 	"database/sql/driver"
@@ -44,6 +45,9 @@ type Exec struct {
 	nEvents  int
 	viaSlice bool
 	cur      *Scenario
+	optScn   int
+	csvOpts  map[string][]csv.ConfigFunc
+	enumMaps map[string]map[string][]string
 }
 
 func NewExec(w io.Writer) *Exec {
@@ -1048,15 +1052,7 @@ func (x *Exec) dispatch(st *Step, ev Ev) {
 			fns = append(fns, newqf.ColumnOrder(strList(st.ColOrder)...))
 		}
 		if st.HasEnums {
-			m := map[string][]string{}
-			for _, e := range st.Enums {
-				if e.Vals == nil {
-					m[e.Name.String()] = nil
-				} else {
-					m[e.Name.String()] = strList(e.Vals)
-				}
-			}
-			fns = append(fns, newqf.Enums(m))
+			fns = append(fns, newqf.Enums(x.sharedEnumMap(st.Enums)))
 		}
 		ev["a"] = Ev{"data": cols, "hasorder": b2i(st.HasOrder), "order": bsOrEmpty(st.ColOrder), "hasenums": b2i(st.HasEnums), "enums": enumsTla(st.Enums)}
 		x.result(ev, qframe.New(data, fns...))
@@ -1398,4 +1394,25 @@ func readScenarios(path string, fn func(*Scenario)) {
 			break
 		}
 	}
+}
+
+// sharedEnumMap: within one scenario equal enum declarations are the very same map value (see sharedCsvOpts)
+func (x *Exec) sharedEnumMap(enums []EnumDecl) map[string][]string {
+	if x.optScn != x.scn || x.enumMaps == nil {
+		x.optScn, x.csvOpts, x.enumMaps = x.scn, map[string][]csv.ConfigFunc{}, map[string]map[string][]string{}
+	}
+	b, _ := json.Marshal(enums)
+	if m, ok := x.enumMaps[string(b)]; ok {
+		return m
+	}
+	m := map[string][]string{}
+	for _, e := range enums {
+		if e.Vals == nil {
+			m[e.Name.String()] = nil
+		} else {
+			m[e.Name.String()] = strList(e.Vals)
+		}
+	}
+	x.enumMaps[string(b)] = m
+	return m
 }
